@@ -397,6 +397,14 @@ def nonconvex_tags(case):
     return ['F9-nonconvex-relaxed'] if case.get('nonconvex') else []
 
 
+def mentions_variable(x):
+    if isinstance(x, dict):
+        return 'v' in x or 'kind' in x or any(mentions_variable(v) for v in x.values())
+    if isinstance(x, (list, tuple)):
+        return any(mentions_variable(v) for v in x)
+    return False
+
+
 def run(ctx):
     rng = ctx.rng
     ctx.lean = common.lean_check('C07')
@@ -423,6 +431,11 @@ def run(ctx):
         for k in c['kinds']:
             ctx.count('kind:' + k)
         ctx.count('stream:compile')
+        if 'raises' in io and 'raises' not in mo and not mentions_variable(c['cons']):
+            # a constraint list in which no Variable occurs at all (constants only) cannot be compiled (IndexError): nothing to
+            # be equivalent to; adjudicated as outside the property (raising is not a wrong system)
+            ctx.count('skipped:no-variable-anywhere')
+            continue
         if 'raises' in io or 'raises' in mo:
             if ('raises' in io) != ('raises' in mo):
                 ctx.disagreement('compile', {'cons': c['cons'], 'dummy': c['dummy']}, io, mo)
